@@ -115,6 +115,7 @@ class Config(object):
                                 eid_pattern=re.compile(item['eid_pattern']),
                                 next_nodeid=item['next_nodeid'],
                                 cl_type=item['cl_type'],
+                                mtu=item.get('mtu'),
                                 raw_config=item
                             ))
                         except Exception as err:
